@@ -124,6 +124,23 @@ def pyval_cases(rng):
     from fractions import Fraction
     items = [1.0, 0.0, 64.0, 144.0, 240.0, 247.0, 248.0, 246.0, 254.0, 243.0, Fraction(248), Fraction(240), Fraction(3, 1), 0.5, float('nan'), float('inf'), 'a', '1', b'\x90', None, True, False, [1], (1,), {},
              bytearray(b'\x01'), 2 ** 70, -1, 1j]
+    # ... and items that ARE integers, of unusual classes (subclasses of int with their own arithmetic or repr): a message whose bytes() are the
+    # same integers, or a ValueError
+    import enum
+
+    class AFlag(enum.IntFlag):
+        A = 0x40
+        B = 0x01
+
+    class AnEnum(enum.IntEnum):
+        A = 0x40
+        S = 0x90
+        P = 0xe0
+
+    class MyInt(int):
+        def __repr__(self):
+            return 'MyInt(%d)' % int(self)
+    items += [AFlag.A, AFlag.A | AFlag.B, AFlag(0), AnEnum.A, AnEnum.S, AnEnum.P, MyInt(5), MyInt(0x7f), MyInt(0xf7), MyInt(200)]
     statuses = [0x90, 0x80, 0xc0, 0xe0, 0xf0, 0xf1, 0xf2, 0xf3, 0xf6, 0xf8, 0xf4, 0x10]
     cases = []
     for it in items:
